@@ -141,4 +141,891 @@ theorem addToCache_cache (s : State) (k : Key) (d : Bytes) :
       · exact ⟨c, i2 k' c h hne⟩
     · simp [AL.get_set]
 
+/-! ### the refinement relation -/
+
+/-- what the theorems need of the codec: decode ∘ encode = id (on inputs whose length fits the 32-bit length header),
+    and an encoding is never empty -/
+structure EnvOK (env : Env) : Prop where
+  rt : ∀ x : Bytes, x.length ≤ 0xffffffff → env.dec (env.enc x) = some x
+  ne : ∀ x, env.enc x ≠ []
+
+/-- the data-file half: the record's byte range lies inside its data file and decodes to the block -/
+def DataOK (env : Env) (fs : FS) (r : Rec) (raw : Bytes) : Prop :=
+  r.blen ≠ 0 ∧ ∃ file, AL.get fs.dats r.datfileidx = some file ∧ r.fpos + r.blen ≤ file.length ∧
+    decodeStored env r ((file.drop r.fpos).take r.blen) = (raw, none)
+
+structure Ref (env : Env) (s : State) (sp : Spec) : Prop where
+  opn : sp.isOpen = s.isOpen
+  keep : s.opts.keep = 0
+  idxspec : ∀ k r, AL.get s.index k = some r → ∃ e, AL.get sp.m k = some e
+  pos : ∀ k r, AL.get s.index k = some r →
+    r.datfileidx ≤ s.maxdatfileidx ∧ (r.datfileidx = s.maxdatfileidx → r.fpos + r.blen ≤ s.maxdatfilepos)
+  cacheidx : ∀ k c, AL.get s.cache k = some c → ∃ r, AL.get s.index k = some r
+  cachedata : ∀ k c e, AL.get s.cache k = some c → AL.get sp.m k = some e → e.tainted = false → c.data = e.raw
+  qseq : ∀ b ∈ s.queue, b.seq < s.nextSeq
+  qdata : ∀ b ∈ s.queue, ∀ r e, AL.get s.index b.idx = some r → r.seq = b.seq → r.ipos = none →
+    AL.get sp.m b.idx = some e → e.tainted = false → b.data = e.raw
+  ent : ∀ k e, AL.get sp.m k = some e → e.tainted = false →
+    ∃ r, AL.get s.index k = some r ∧ r.trusted = e.trusted ∧ r.olen = e.raw.length ∧ (80 ≤ e.raw.length ∧ e.raw.length ≤ 0xffffffff) ∧
+      (r.ipos = none → ∃ c, AL.get s.cache k = some c) ∧ (r.ipos.isSome = true → DataOK env s.fs r e.raw)
+
+theorem DataOK_congr (env : Env) (fs fs' : FS) (r r' : Rec) (raw : Bytes) (hd : fs'.dats = fs.dats)
+    (h1 : r'.fpos = r.fpos) (h2 : r'.blen = r.blen) (h3 : r'.datfileidx = r.datfileidx)
+    (h4 : r'.compressed = r.compressed) (h5 : r'.snappied = r.snappied) (h : DataOK env fs r raw) :
+    DataOK env fs' r' raw := by
+  unfold DataOK at *
+  unfold decodeStored at *
+  rw [h1, h2, h3, h4, h5, hd]
+  exact h
+
+/-- the index record of key `k` is replaced by one with the same disk fields, and / or the specification changes at `k`
+    in a compatible way; cache, queue, data files, positions unchanged -/
+theorem ref_update (env : Env) (s s' : State) (sp sp' : Spec) (h : Ref env s sp) (k : Key) (r0 r' : Rec)
+    (hr : AL.get s.index k = some r0)
+    (hidx : ∀ k', AL.get s'.index k' = if k = k' then some r' else AL.get s.index k')
+    (f1 : s'.cache = s.cache) (f2 : s'.queue = s.queue) (f3 : s'.fs.dats = s.fs.dats) (f4 : s'.opts = s.opts)
+    (f5 : s'.isOpen = s.isOpen) (f6 : s'.nextSeq = s.nextSeq) (f7 : s'.maxdatfilepos = s.maxdatfilepos)
+    (f8 : s'.maxdatfileidx = s.maxdatfileidx)
+    (g1 : r'.fpos = r0.fpos) (g2 : r'.blen = r0.blen) (g3 : r'.datfileidx = r0.datfileidx)
+    (g4 : r'.compressed = r0.compressed) (g5 : r'.snappied = r0.snappied) (g6 : r'.ipos = r0.ipos) (g7 : r'.seq = r0.seq)
+    (hopen : sp'.isOpen = sp.isOpen)
+    (hm : ∀ k', k ≠ k' → AL.get sp'.m k' = AL.get sp.m k')
+    (hk : ∀ e', AL.get sp'.m k = some e' → e'.tainted = false →
+      ∃ e, AL.get sp.m k = some e ∧ e.tainted = false ∧ e.raw = e'.raw ∧ r'.trusted = e'.trusted ∧ r'.olen = r0.olen)
+    (hex : ∃ e', AL.get sp'.m k = some e') : Ref env s' sp' := by
+  refine ⟨by rw [hopen, f5]; exact h.opn, by rw [f4]; exact h.keep, ?_, ?_, ?_, ?_, ?_, ?_, ?_⟩
+  · intro k' r hh
+    rw [hidx] at hh
+    split at hh
+    · rename_i e; subst e; exact hex
+    · rename_i ne; rw [hm k' ne]; exact h.idxspec k' r hh
+  · intro k' r hh
+    rw [hidx] at hh
+    rw [f7, f8]
+    split at hh
+    · simp only [Option.some.injEq] at hh; subst hh
+      rw [g1, g2, g3]; exact h.pos k r0 hr
+    · exact h.pos k' r hh
+  · intro k' c hh
+    rw [f1] at hh
+    obtain ⟨r, hr'⟩ := h.cacheidx k' c hh
+    rw [hidx]
+    split
+    · exact ⟨_, rfl⟩
+    · exact ⟨r, hr'⟩
+  · intro k' c e' hc he' ht
+    rw [f1] at hc
+    by_cases hkk : k = k'
+    · subst hkk
+      obtain ⟨e, he, hte, hraw, _, _⟩ := hk e' he' ht
+      rw [← hraw]; exact h.cachedata k c e hc he hte
+    · rw [hm k' hkk] at he'; exact h.cachedata k' c e' hc he' ht
+  · intro b hb; rw [f2] at hb; rw [f6]; exact h.qseq b hb
+  · intro b hb r e' hri hseq hip he' ht
+    rw [f2] at hb
+    rw [hidx] at hri
+    by_cases hkk : k = b.idx
+    · rw [if_pos hkk] at hri
+      simp only [Option.some.injEq] at hri; subst hri
+      rw [← hkk] at he'
+      obtain ⟨e, he, hte, hraw, _, _⟩ := hk e' he' ht
+      rw [← hraw]
+      exact h.qdata b hb r0 e (by rw [← hkk]; exact hr) (by rw [← g7]; exact hseq) (by rw [← g6]; exact hip) (by rw [← hkk]; exact he) hte
+    · rw [if_neg hkk] at hri
+      rw [hm _ hkk] at he'
+      exact h.qdata b hb r e' hri hseq hip he' ht
+  · intro k' e' he' ht
+    by_cases hkk : k = k'
+    · subst hkk
+      obtain ⟨e, he, hte, hraw, htr, hol⟩ := hk e' he' ht
+      obtain ⟨r, hr1, _, hr3, hr4, hr5, hr6⟩ := h.ent k e he hte
+      rw [hr] at hr1; simp only [Option.some.injEq] at hr1; subst hr1
+      refine ⟨r', by rw [hidx]; simp, htr, by rw [hol, hr3, hraw], by rw [← hraw]; exact hr4, ?_, ?_⟩
+      · intro hn; rw [f1]; exact hr5 (by rw [← g6]; exact hn)
+      · intro hn
+        rw [← hraw]
+        exact DataOK_congr env s.fs s'.fs r0 r' e.raw f3 g1 g2 g3 g4 g5 (hr6 (by rw [← g6]; exact hn))
+    · rw [hm k' hkk] at he'
+      obtain ⟨r, hr1, hr2, hr3, hr4, hr5, hr6⟩ := h.ent k' e' he' ht
+      refine ⟨r, by rw [hidx, if_neg hkk]; exact hr1, hr2, hr3, hr4, ?_, ?_⟩
+      · intro hn; rw [f1]; exact hr5 hn
+      · intro hn
+        exact DataOK_congr env s.fs s'.fs r r e'.raw f3 rfl rfl rfl rfl rfl (hr6 hn)
+
+/-- only the cache changes: same keys, same data -/
+theorem ref_cache (env : Env) (s s' : State) (sp : Spec) (h : Ref env s sp)
+    (f0 : s'.index = s.index) (f2 : s'.queue = s.queue) (f3 : s'.fs = s.fs) (f4 : s'.opts = s.opts)
+    (f5 : s'.isOpen = s.isOpen) (f6 : s'.nextSeq = s.nextSeq) (f7 : s'.maxdatfilepos = s.maxdatfilepos)
+    (f8 : s'.maxdatfileidx = s.maxdatfileidx)
+    (c1 : ∀ k' c', AL.get s'.cache k' = some c' → (∃ c, AL.get s.cache k' = some c ∧ c.data = c'.data) ∨
+        ((∃ r, AL.get s.index k' = some r) ∧ ∀ e, AL.get sp.m k' = some e → e.tainted = false → c'.data = e.raw))
+    (c2 : ∀ k' c r, AL.get s.cache k' = some c → AL.get s.index k' = some r → r.ipos = none →
+        ∃ c', AL.get s'.cache k' = some c') : Ref env s' sp := by
+  refine ⟨by rw [f5]; exact h.opn, by rw [f4]; exact h.keep, by rw [f0]; exact h.idxspec,
+    by rw [f0, f7, f8]; exact h.pos, ?_, ?_, by rw [f2, f6]; exact h.qseq, by rw [f2, f0]; exact h.qdata, ?_⟩
+  · intro k c hc
+    rw [f0]
+    rcases c1 k c hc with ⟨c0, hc0, _⟩ | ⟨hr, _⟩
+    · exact h.cacheidx k c0 hc0
+    · exact hr
+  · intro k c e hc he ht
+    rcases c1 k c hc with ⟨c0, hc0, hd⟩ | ⟨_, hd⟩
+    · rw [← hd]; exact h.cachedata k c0 e hc0 he ht
+    · exact hd e he ht
+  · intro k e he ht
+    obtain ⟨r, hr1, hr2, hr3, hr4, hr5, hr6⟩ := h.ent k e he ht
+    refine ⟨r, by rw [f0]; exact hr1, hr2, hr3, hr4, ?_, by rw [f3]; exact hr6⟩
+    intro hn
+    obtain ⟨c, hc⟩ := hr5 hn
+    exact c2 k c r hc hr1 hn
+
+theorem evictable_none (index : List (Key × Rec)) (k : Key) (r : Rec) (h : AL.get index k = some r) (hn : r.ipos = none) :
+    evictable index k = false := by
+  unfold evictable; rw [h]; simp [hn]
+
+/-- `addToCache s k d` for a key that is in the index, with the block's own bytes -/
+theorem addToCache_ref (env : Env) (s : State) (sp : Spec) (h : Ref env s sp) (k : Key) (d : Bytes)
+    (hr : ∃ r, AL.get s.index k = some r)
+    (hd : ∀ e, AL.get sp.m k = some e → e.tainted = false → d = e.raw) : Ref env (addToCache s k d) sp := by
+  obtain ⟨g1, g2, g3, g4, g5, g6, g7, g8, _⟩ := addToCache_fields s k d
+  obtain ⟨a1, a2, _⟩ := addToCache_cache s k d
+  refine ref_cache env s _ sp h g1 g2 g3 g4 g5 g6 g7 g8 ?_ ?_
+  · intro k' c' hc
+    rcases a1 k' c' hc with hh | ⟨e1, e2, _⟩
+    · exact .inl hh
+    · subst e1; exact .inr ⟨hr, fun e he ht => by rw [e2]; exact hd e he ht⟩
+  · intro k' c r hc hri hn
+    exact a2 k' c hc (evictable_none s.index k' r hri hn)
+
+/-! ### writing -/
+
+theorem ref_pop (env : Env) (s : State) (sp : Spec) (h : Ref env s sp) (b : B2W) (q : List B2W) (hq : s.queue = b :: q) (n : Nat) :
+    Ref env { s with queue := q, datToWrite := n } sp :=
+  ⟨h.opn, h.keep, h.idxspec, h.pos, h.cacheidx, h.cachedata,
+    fun b' hb' => h.qseq b' (by rw [hq]; simp [hb']),
+    fun b' hb' => h.qdata b' (by rw [hq]; simp [hb']), h.ent⟩
+
+theorem maybeRoll_ref (env : Env) (s : State) (sp : Spec) (h : Ref env s sp) (n : Nat) :
+    Ref env (maybeRoll s n) sp ∧ (maybeRoll s n).index = s.index ∧ (maybeRoll s n).queue = s.queue
+      ∧ (maybeRoll s n).opts = s.opts := by
+  unfold maybeRoll
+  split
+  · unfold rollOver
+    have hk : ¬ (s.opts.keep ≠ 0 ∧ s.maxdatfileidx ≥ s.opts.keep) := by rw [h.keep]; simp
+    simp only [hk, ↓reduceIte]
+    refine ⟨⟨h.opn, h.keep, h.idxspec, ?_, h.cacheidx, h.cachedata, h.qseq, h.qdata, ?_⟩, by simp⟩
+    · intro k r hr
+      have := h.pos k r hr
+      simp only
+      omega
+    · intro k e he ht
+      obtain ⟨r, hr1, hr2, hr3, hr4, hr5, hr6⟩ := h.ent k e he ht
+      refine ⟨r, hr1, hr2, hr3, hr4, hr5, ?_⟩
+      intro hn
+      obtain ⟨d1, file, d2, d3, d4⟩ := hr6 hn
+      refine ⟨d1, file, ?_, d3, d4⟩
+      simp only [AL.get_set]
+      have := (h.pos k r hr1).1
+      rw [if_neg (by omega)]
+      exact d2
+  · exact ⟨h, rfl, rfl, rfl⟩
+
+theorem decodeStored_written (env : Env) (ok : EnvOK env) (r : Rec) (c : Bool) (raw : Bytes)
+    (h1 : r.compressed = c) (h2 : r.snappied = c) (hb : raw.length ≤ 0xffffffff) :
+    decodeStored env r (if c = true then env.enc raw else raw) = (raw, none) := by
+  unfold decodeStored
+  cases c
+  · simp [h1]
+  · simp [h1, h2, ok.rt raw hb]
+
+/-- `writeOne`'s record write keeps the relation: the new range is read back as written, older ranges are untouched -/
+theorem writeRecord_ref (env : Env) (ok : EnvOK env) (s : State) (sp : Spec) (h : Ref env s sp) (b : B2W) (r0 : Rec)
+    (hr0 : AL.get s.index b.idx = some r0) (_hn0 : r0.ipos = none)
+    (hdat : ∀ e, AL.get sp.m b.idx = some e → e.tainted = false → b.data = e.raw) :
+    Ref env (writeRecord s b r0 (if s.opts.compress = true then env.enc b.data else b.data)) sp := by
+  generalize hcb : (if s.opts.compress = true then env.enc b.data else b.data) = cbts
+  unfold writeRecord
+  refine ⟨h.opn, h.keep, ?_, ?_, ?_, h.cachedata, h.qseq, ?_, ?_⟩
+  · intro k r hr
+    simp only [AL.get_set] at hr
+    split at hr
+    · rename_i e; subst e; exact h.idxspec _ r0 hr0
+    · exact h.idxspec k r hr
+  · intro k r hr
+    simp only [AL.get_set] at hr
+    simp only
+    split at hr
+    · simp only [Option.some.injEq] at hr; subst hr
+      simp
+    · have := h.pos k r hr; omega
+  · intro k c hc
+    obtain ⟨r, hr⟩ := h.cacheidx k c hc
+    simp only [AL.get_set]
+    split
+    · exact ⟨_, rfl⟩
+    · exact ⟨r, hr⟩
+  · intro b' hb' r e hri hseq hip he ht
+    simp only [AL.get_set] at hri
+    split at hri
+    · simp only [Option.some.injEq] at hri; subst hri
+      simp at hip
+    · exact h.qdata b' hb' r e hri hseq hip he ht
+  · intro k e he ht
+    obtain ⟨r, hr1, hr2, hr3, hr4, hr5, hr6⟩ := h.ent k e he ht
+    by_cases hk : b.idx = k
+    · subst hk
+      rw [hr0] at hr1; simp only [Option.some.injEq] at hr1; subst hr1
+      have hraw := hdat e he ht
+      refine ⟨{ r0 with compressed := s.opts.compress, snappied := s.opts.compress, blen := cbts.length,
+                        datfileidx := s.maxdatfileidx, fpos := s.maxdatfilepos, ipos := some s.maxidxfilepos },
+        by simp only [AL.get_set]; simp, hr2, hr3, hr4, by simp, ?_⟩
+      intro _
+      have hne : cbts ≠ [] := by
+        rw [← hcb]
+        split
+        · exact ok.ne _
+        · intro hh; rw [hraw] at hh; rw [hh] at hr4; simp at hr4
+      refine ⟨by simpa using hne, pwrite ((AL.get s.fs.dats s.maxdatfileidx).getD []) s.maxdatfilepos cbts, ?_, ?_, ?_⟩
+      · simp only [AL.get_set]; simp
+      · exact pwrite_length_ge _ _ _
+      · simp only [pwrite_read]
+        rw [← hcb, hraw]
+        exact decodeStored_written env ok _ s.opts.compress e.raw rfl rfl hr4.2
+    · refine ⟨r, by simp only [AL.get_set]; rw [if_neg hk]; exact hr1, hr2, hr3, hr4, hr5, ?_⟩
+      intro hn
+      obtain ⟨d1, file, d2, d3, d4⟩ := hr6 hn
+      by_cases hf : s.maxdatfileidx = r.datfileidx
+      · have hp := (h.pos k r hr1).2 hf.symm
+        refine ⟨d1, pwrite file s.maxdatfilepos cbts, ?_, ?_, ?_⟩
+        · simp only [AL.get_set]; rw [if_pos hf, hf, d2]; simp
+        · have := pwrite_length_ge' file s.maxdatfilepos cbts; omega
+        · rw [pwrite_keep _ _ _ _ _ hp d3]; exact d4
+      · exact ⟨d1, file, by simp only [AL.get_set]; rw [if_neg hf]; exact d2, d3, d4⟩
+
+theorem writeOne_ref (env : Env) (ok : EnvOK env) (s s' : State) (sp : Spec) (h : Ref env s sp)
+    (hw : writeOne env s = some s') : Ref env s' sp := by
+  unfold writeOne at hw
+  split at hw
+  · cases hw
+  · rename_i b q hq
+    have h0 := ref_pop env s sp h b q hq (s.datToWrite - b.data.length)
+    simp only at hw
+    split at hw
+    · cases hw; exact h0
+    · rename_i r0 hr0
+      split at hw
+      · cases hw; exact h0
+      · rename_i hc
+        simp only [Option.some.injEq] at hw
+        subst hw
+        have hseq : r0.seq = b.seq := by
+          by_cases e : r0.seq = b.seq
+          · exact e
+          · exact absurd (Or.inl e) hc
+        have hip : r0.ipos = none := by
+          cases hh : r0.ipos with
+          | none => rfl
+          | some p => exact absurd (Or.inr (by simp [hh])) hc
+        obtain ⟨m1, m2, _, m4⟩ := maybeRoll_ref env _ sp h0
+          (if s.opts.compress = true then env.enc b.data else b.data).length
+        have key := writeRecord_ref env ok _ sp m1 b r0 (by rw [m2]; exact hr0) hip
+          (fun e he ht => h.qdata b (by rw [hq]; simp) r0 e hr0 hseq hip he ht)
+        rw [m4] at key
+        exact key
+
+theorem writeAll_ref (env : Env) (ok : EnvOK env) (sp : Spec) : ∀ (f : Nat) (s : State), Ref env s sp →
+    Ref env (writeAll env f s) sp := by
+  intro f
+  induction f with
+  | zero => intro s h; exact h
+  | succ f ih =>
+    intro s h
+    unfold writeAll
+    split
+    · exact h
+    · rename_i s' hw
+      exact ih s' (writeOne_ref env ok s s' sp h hw)
+
+theorem flush_ref (env : Env) (ok : EnvOK env) (s : State) (sp : Spec) (h : Ref env s sp) : Ref env (flush env s) sp :=
+  writeAll_ref env ok sp _ s h
+
+/-! ### flag updates -/
+
+/-- the specification changes at key `k` only, compatibly; the state does not change -/
+theorem ref_spec (env : Env) (s : State) (sp sp' : Spec) (h : Ref env s sp) (k : Key)
+    (hopen : sp'.isOpen = sp.isOpen)
+    (hm : ∀ k', k ≠ k' → AL.get sp'.m k' = AL.get sp.m k')
+    (hk : ∀ e', AL.get sp'.m k = some e' → e'.tainted = false →
+      ∃ e, AL.get sp.m k = some e ∧ e.tainted = false ∧ e.raw = e'.raw ∧ e.trusted = e'.trusted)
+    (hex : ∀ e, AL.get sp.m k = some e → ∃ e', AL.get sp'.m k = some e') : Ref env s sp' := by
+  refine ⟨by rw [hopen]; exact h.opn, h.keep, ?_, h.pos, h.cacheidx, ?_, h.qseq, ?_, ?_⟩
+  · intro k' r hr
+    obtain ⟨e, he⟩ := h.idxspec k' r hr
+    by_cases hkk : k = k'
+    · subst hkk; exact hex e he
+    · rw [hm k' hkk]; exact ⟨e, he⟩
+  · intro k' c e' hc he' ht
+    by_cases hkk : k = k'
+    · subst hkk
+      obtain ⟨e, he, hte, hraw, _⟩ := hk e' he' ht
+      rw [← hraw]; exact h.cachedata k c e hc he hte
+    · rw [hm k' hkk] at he'; exact h.cachedata k' c e' hc he' ht
+  · intro b hb r e' hri hseq hip he' ht
+    by_cases hkk : k = b.idx
+    · rw [← hkk] at he'
+      obtain ⟨e, he, hte, hraw, _⟩ := hk e' he' ht
+      rw [← hraw]
+      exact h.qdata b hb r e hri hseq hip (by rw [← hkk]; exact he) hte
+    · rw [hm _ hkk] at he'
+      exact h.qdata b hb r e' hri hseq hip he' ht
+  · intro k' e' he' ht
+    by_cases hkk : k = k'
+    · subst hkk
+      obtain ⟨e, he, hte, hraw, htr⟩ := hk e' he' ht
+      obtain ⟨r, hr1, hr2, hr3, hr4, hr5, hr6⟩ := h.ent k e he hte
+      exact ⟨r, hr1, by rw [← htr]; exact hr2, by rw [← hraw]; exact hr3, by rw [← hraw]; exact hr4, hr5,
+        by rw [← hraw]; exact hr6⟩
+    · rw [hm k' hkk] at he'
+      exact h.ent k' e' he' ht
+
+theorem setBlockFlag_fields (s : State) (k : Key) (r0 : Rec) (fl : Nat) :
+    (∀ k', AL.get (setBlockFlag s k r0 fl).index k' =
+        if k = k' then some { r0 with trusted := r0.trusted || fl == BLOCK_TRUSTED } else AL.get s.index k') ∧
+    (setBlockFlag s k r0 fl).cache = s.cache ∧ (setBlockFlag s k r0 fl).queue = s.queue ∧
+    (setBlockFlag s k r0 fl).fs.dats = s.fs.dats ∧ (setBlockFlag s k r0 fl).opts = s.opts ∧
+    (setBlockFlag s k r0 fl).isOpen = s.isOpen ∧ (setBlockFlag s k r0 fl).nextSeq = s.nextSeq ∧
+    (setBlockFlag s k r0 fl).maxdatfilepos = s.maxdatfilepos ∧ (setBlockFlag s k r0 fl).maxdatfileidx = s.maxdatfileidx := by
+  unfold setBlockFlag
+  split <;> simp [AL.get_set]
+
+/-- BlockTrusted (also reached from BlockAdd of a known block with the trusted flag) against any specification change
+    that sets the key's trusted flag and keeps everything else -/
+theorem blockTrusted_ref (env : Env) (s : State) (sp sp' : Spec) (h : Ref env s sp) (hash : Bytes)
+    (hopen : sp'.isOpen = sp.isOpen)
+    (hm : ∀ k', keyOf hash ≠ k' → AL.get sp'.m k' = AL.get sp.m k')
+    (hk : ∀ e', AL.get sp'.m (keyOf hash) = some e' →
+      ∃ e, AL.get sp.m (keyOf hash) = some e ∧ e'.tainted = e.tainted ∧ e'.raw = e.raw ∧ e'.trusted = true)
+    (hex : ∀ e, AL.get sp.m (keyOf hash) = some e → ∃ e', AL.get sp'.m (keyOf hash) = some e') :
+    Ref env (blockTrusted s hash) sp' := by
+  unfold blockTrusted
+  simp only
+  split
+  · rename_i hnone
+    refine ref_spec env s sp sp' h (keyOf hash) hopen hm ?_ hex
+    intro e' he' ht
+    obtain ⟨e, he, h1, _, _⟩ := hk e' he'
+    obtain ⟨r, hr, _⟩ := h.ent _ e he (by rw [← h1]; exact ht)
+    rw [hnone] at hr; cases hr
+  · rename_i r0 hr0
+    split
+    · rename_i htr
+      refine ref_spec env s sp sp' h (keyOf hash) hopen hm ?_ hex
+      intro e' he' ht
+      obtain ⟨e, he, h1, h2, h3⟩ := hk e' he'
+      have hte : e.tainted = false := by rw [← h1]; exact ht
+      obtain ⟨r, hr, hr2, _⟩ := h.ent _ e he hte
+      rw [hr0] at hr; simp only [Option.some.injEq] at hr; subst hr
+      exact ⟨e, he, hte, h2.symm, by rw [h3, ← hr2]; exact htr⟩
+    · obtain ⟨i0, i1, i2, i3, i4, i5, i6, i7, i8⟩ := setBlockFlag_fields s (keyOf hash) r0 BLOCK_TRUSTED
+      obtain ⟨e0, he0⟩ := h.idxspec _ r0 hr0
+      refine ref_update env s _ sp sp' h (keyOf hash) r0 _ hr0 i0 i1 i2 i3 i4 i5 i6 i7 i8 rfl rfl rfl rfl rfl rfl rfl hopen hm ?_ (hex e0 he0)
+      intro e' he' ht
+      obtain ⟨e, he, h1, h2, h3⟩ := hk e' he'
+      exact ⟨e, he, by rw [← h1]; exact ht, h2.symm, by simp [h3], rfl⟩
+
+/-! ### BlockInvalid -/
+
+theorem ref_delete (env : Env) (s : State) (sp : Spec) (h : Ref env s sp) (k : Key)
+    (ht : ∀ e, AL.get sp.m k = some e → e.tainted = true) :
+    Ref env { s with cache := AL.del s.cache k, index := AL.del s.index k } sp := by
+  refine ⟨h.opn, h.keep, ?_, ?_, ?_, ?_, h.qseq, ?_, ?_⟩
+  · intro k' r hr
+    simp only [AL.get_del] at hr
+    split at hr
+    · cases hr
+    · exact h.idxspec k' r hr
+  · intro k' r hr
+    simp only [AL.get_del] at hr
+    split at hr
+    · cases hr
+    · exact h.pos k' r hr
+  · intro k' c hc
+    simp only [AL.get_del] at hc ⊢
+    split at hc
+    · cases hc
+    · rename_i hne; rw [if_neg hne]; exact h.cacheidx k' c hc
+  · intro k' c e hc he hte
+    simp only [AL.get_del] at hc
+    split at hc
+    · cases hc
+    · exact h.cachedata k' c e hc he hte
+  · intro b hb r e hri
+    simp only [AL.get_del] at hri
+    split at hri
+    · cases hri
+    · exact h.qdata b hb r e hri
+  · intro k' e he hte
+    have hne : ¬ k = k' := by
+      intro hh; subst hh; rw [ht e he] at hte; cases hte
+    obtain ⟨r, hr1, hr2, hr3, hr4, hr5, hr6⟩ := h.ent k' e he hte
+    refine ⟨r, by simp only [AL.get_del]; rw [if_neg hne]; exact hr1, hr2, hr3, hr4, ?_, hr6⟩
+    intro hn
+    simp only [AL.get_del]; rw [if_neg hne]; exact hr5 hn
+
+theorem blockInvalid_ref (env : Env) (s : State) (sp sp' : Spec) (h : Ref env s sp) (hash : Bytes)
+    (hopen : sp'.isOpen = sp.isOpen)
+    (hm : ∀ k', keyOf hash ≠ k' → AL.get sp'.m k' = AL.get sp.m k')
+    (hk : ∀ e', AL.get sp'.m (keyOf hash) = some e' → e'.tainted = true)
+    (hex : ∀ e, AL.get sp.m (keyOf hash) = some e → ∃ e', AL.get sp'.m (keyOf hash) = some e') :
+    Ref env (blockInvalid s hash).1 sp' := by
+  have hsp : Ref env s sp' := by
+    refine ref_spec env s sp sp' h (keyOf hash) hopen hm ?_ hex
+    intro e' he' ht; rw [hk e' he'] at ht; cases ht
+  unfold blockInvalid
+  simp only
+  split
+  · exact hsp
+  · rename_i r0 hr0
+    split
+    · exact hsp
+    · split
+      · exact ref_delete env s sp' hsp (keyOf hash) hk
+      · obtain ⟨i0, i1, i2, i3, i4, i5, i6, i7, i8⟩ := setBlockFlag_fields s (keyOf hash) r0 BLOCK_INVALID
+        obtain ⟨e0, he0⟩ := hsp.idxspec _ r0 hr0
+        refine ref_update env s _ sp' sp' hsp (keyOf hash) r0 _ hr0 i0 i1 i2 i3 i4 i5 i6 i7 i8 rfl rfl rfl rfl rfl rfl rfl rfl
+          (fun _ _ => rfl) ?_ ⟨e0, he0⟩
+        intro e' he' ht; rw [hk e' he'] at ht; cases ht
+
+/-! ### BlockAdd -/
+
+theorem addNew_ref (env : Env) (s : State) (sp sp' : Spec) (h : Ref env s sp) (k : Key)
+    (hnone : AL.get s.index k = none) (raw : Bytes) (ht tx : Nat) (tr : Bool) (hraw : 80 ≤ raw.length ∧ raw.length ≤ 0xffffffff)
+    (hopen : sp'.isOpen = sp.isOpen)
+    (hm : ∀ k', k ≠ k' → AL.get sp'.m k' = AL.get sp.m k')
+    (hk : ∀ e', AL.get sp'.m k = some e' → e'.tainted = false → e'.raw = raw ∧ e'.trusted = tr)
+    (hex : ∃ e', AL.get sp'.m k = some e') (s2 : State)
+    (hs2 : s2 = addToCache { s with index := AL.set s.index k { ipos := none, trusted := tr, olen := raw.length, seq := s.nextSeq } } k raw) :
+    Ref env { s2 with datToWrite := s2.datToWrite + raw.length, nextSeq := s2.nextSeq + 1,
+                      queue := s2.queue ++ [{ data := raw, idx := k, height := ht, txcount := tx % 2^32, seq := s2.nextSeq }] } sp' := by
+  generalize hs1 : ({ s with index := AL.set s.index k { ipos := none, trusted := tr, olen := raw.length, seq := s.nextSeq } } : State) = s1 at hs2
+  have e_idx : s1.index = AL.set s.index k { ipos := none, trusted := tr, olen := raw.length, seq := s.nextSeq } := by rw [← hs1]
+  have e_cache : s1.cache = s.cache := by rw [← hs1]
+  have e_q : s1.queue = s.queue := by rw [← hs1]
+  have e_fs : s1.fs = s.fs := by rw [← hs1]
+  have e_opts : s1.opts = s.opts := by rw [← hs1]
+  have e_open : s1.isOpen = s.isOpen := by rw [← hs1]
+  have e_seq : s1.nextSeq = s.nextSeq := by rw [← hs1]
+  have e_mp : s1.maxdatfilepos = s.maxdatfilepos := by rw [← hs1]
+  have e_mi : s1.maxdatfileidx = s.maxdatfileidx := by rw [← hs1]
+  obtain ⟨g1, g2, g3, g4, g5, g6, g7, g8, _⟩ := addToCache_fields s1 k raw
+  obtain ⟨a1, a2, a3⟩ := addToCache_cache s1 k raw
+  rw [← hs2] at g1 g2 g3 g4 g5 g6 g7 g8 a1 a2 a3
+  have hix : ∀ k', AL.get s2.index k' = if k = k' then some { ipos := none, trusted := tr, olen := raw.length, seq := s.nextSeq } else AL.get s.index k' := by
+    intro k'; rw [g1, e_idx, AL.get_set]
+  refine ⟨by rw [hopen]; simp only; rw [g5, e_open]; exact h.opn, by simp only; rw [g4, e_opts]; exact h.keep, ?_, ?_, ?_, ?_, ?_, ?_, ?_⟩
+  · intro k' r hr
+    simp only [hix] at hr
+    split at hr
+    · rename_i e; subst e; exact hex
+    · rename_i hne; rw [hm k' hne]; exact h.idxspec k' r hr
+  · intro k' r hr
+    simp only [hix] at hr
+    simp only [g7, g8, e_mp, e_mi]
+    split at hr
+    · simp only [Option.some.injEq] at hr; subst hr; simp
+    · exact h.pos k' r hr
+  · intro k' c hc
+    simp only at hc
+    simp only [hix]
+    rcases a1 k' c hc with ⟨c0, hc0, _⟩ | ⟨e1, _, _⟩
+    · rw [e_cache] at hc0
+      obtain ⟨r, hr⟩ := h.cacheidx k' c0 hc0
+      split
+      · exact ⟨_, rfl⟩
+      · exact ⟨r, hr⟩
+    · rw [if_pos e1.symm]; exact ⟨_, rfl⟩
+  · intro k' c e' hc he' hte
+    simp only at hc
+    rcases a1 k' c hc with ⟨c0, hc0, hd⟩ | ⟨e1, e2, _⟩
+    · rw [e_cache] at hc0
+      have hne : ¬ k = k' := by
+        intro hh; subst hh
+        obtain ⟨r, hr⟩ := h.cacheidx k c0 hc0
+        rw [hnone] at hr; cases hr
+      rw [hm k' hne] at he'
+      rw [← hd]; exact h.cachedata k' c0 e' hc0 he' hte
+    · subst e1; rw [e2]; exact (hk e' he' hte).1.symm
+  · intro b hb
+    simp only [List.mem_append, List.mem_singleton] at hb
+    simp only [g6, e_seq]
+    rcases hb with hb | hb
+    · rw [g2, e_q] at hb; have := h.qseq b hb; omega
+    · subst hb; simp only; omega
+  · intro b hb r e' hri hseq hip he' hte
+    simp only [List.mem_append, List.mem_singleton] at hb
+    simp only [hix] at hri
+    rcases hb with hb | hb
+    · rw [g2, e_q] at hb
+      split at hri
+      · simp only [Option.some.injEq] at hri; subst hri
+        have := h.qseq b hb
+        simp only at hseq; omega
+      · rename_i hne
+        rw [hm _ hne] at he'
+        exact h.qdata b hb r e' hri hseq hip he' hte
+    · subst hb
+      simp only at he' ⊢
+      exact (hk e' he' hte).1.symm
+  · intro k' e' he' hte
+    by_cases hkk : k = k'
+    · subst hkk
+      obtain ⟨h1, h2⟩ := hk e' he' hte
+      refine ⟨{ ipos := none, trusted := tr, olen := raw.length, seq := s.nextSeq }, by simp only [hix]; simp, h2.symm,
+        by rw [h1], by rw [h1]; exact hraw, fun _ => a3, by simp⟩
+    · rw [hm k' hkk] at he'
+      obtain ⟨r, hr1, hr2, hr3, hr4, hr5, hr6⟩ := h.ent k' e' he' hte
+      refine ⟨r, by simp only [hix]; rw [if_neg hkk]; exact hr1, hr2, hr3, hr4, ?_, ?_⟩
+      · intro hn
+        obtain ⟨c, hc⟩ := hr5 hn
+        refine a2 k' c (by rw [e_cache]; exact hc) (evictable_none _ k' r ?_ hn)
+        rw [e_idx, AL.get_set, if_neg hkk]; exact hr1
+      · intro hn
+        simp only [g3, e_fs]; exact hr6 hn
+
+theorem blockAdd_ref (env : Env) (ok : EnvOK env) (s : State) (sp sp' : Spec) (h : Ref env s sp) (hash : Bytes)
+    (ht tx : Nat) (tr : Bool) (raw : Bytes) (hraw : 80 ≤ raw.length ∧ raw.length ≤ 0xffffffff)
+    (hopen : sp'.isOpen = sp.isOpen)
+    (hm : ∀ k', keyOf hash ≠ k' → AL.get sp'.m k' = AL.get sp.m k')
+    (hnew : AL.get sp.m (keyOf hash) = none → ∀ e', AL.get sp'.m (keyOf hash) = some e' → e'.raw = raw ∧ e'.trusted = tr)
+    (hold : ∀ e, AL.get sp.m (keyOf hash) = some e → ∀ e', AL.get sp'.m (keyOf hash) = some e' →
+      e'.tainted = e.tainted ∧ e'.raw = e.raw ∧ e'.trusted = (e.trusted || tr))
+    (hex : ∃ e', AL.get sp'.m (keyOf hash) = some e') :
+    Ref env (blockAdd env s hash ht tx tr raw) sp' := by
+  unfold blockAdd
+  simp only
+  split
+  · rename_i hnone
+    have hk : ∀ e', AL.get sp'.m (keyOf hash) = some e' → e'.tainted = false → e'.raw = raw ∧ e'.trusted = tr := by
+      intro e' he' hte
+      cases hsp : AL.get sp.m (keyOf hash) with
+      | none => exact hnew hsp e' he'
+      | some e =>
+        obtain ⟨h1, _, _⟩ := hold e hsp e' he'
+        obtain ⟨r, hr, _⟩ := h.ent _ e hsp (by rw [← h1]; exact hte)
+        rw [hnone] at hr; cases hr
+    have key := addNew_ref env s sp sp' h (keyOf hash) hnone raw ht tx tr hraw hopen hm hk hex _ rfl
+    split
+    · exact flush_ref env ok _ sp' key
+    · exact key
+  · rename_i r0 hr0
+    obtain ⟨e0, he0⟩ := h.idxspec _ r0 hr0
+    split
+    · rename_i hc
+      simp only [Bool.and_eq_true, Bool.not_eq_eq_eq_not, Bool.not_true] at hc
+      split
+      · refine ref_update env s _ sp sp' h (keyOf hash) r0 { r0 with trusted := true } hr0 (fun k' => by simp only [AL.get_set])
+          rfl rfl rfl rfl rfl rfl rfl rfl rfl rfl rfl rfl rfl rfl rfl hopen hm ?_ hex
+        intro e' he' hte
+        obtain ⟨h1, h2, h3⟩ := hold e0 he0 e' he'
+        exact ⟨e0, he0, by rw [← h1]; exact hte, h2.symm, by rw [h3, hc.2]; simp, rfl⟩
+      · refine blockTrusted_ref env s sp sp' h hash hopen hm ?_ (fun _ _ => hex)
+        intro e' he'
+        obtain ⟨h1, h2, h3⟩ := hold e0 he0 e' he'
+        exact ⟨e0, he0, h1, h2, by rw [h3, hc.2]; simp⟩
+    · rename_i hc
+      refine ref_spec env s sp sp' h (keyOf hash) hopen hm ?_ (fun _ _ => hex)
+      intro e' he' hte
+      obtain ⟨h1, h2, h3⟩ := hold e0 he0 e' he'
+      have hte0 : e0.tainted = false := by rw [← h1]; exact hte
+      obtain ⟨r, hr, hr2, _⟩ := h.ent _ e0 he0 hte0
+      rw [hr0] at hr; simp only [Option.some.injEq] at hr; subst hr
+      refine ⟨e0, he0, hte0, h2.symm, ?_⟩
+      rw [h3, ← hr2]
+      cases h5 : r0.trusted <;> cases h6 : tr <;> simp_all
+
+/-! ### BlockGet / BlockLength -/
+
+theorem blockGet_ref (env : Env) (s : State) (sp : Spec) (h : Ref env s sp) (hash : Bytes) :
+    Ref env (blockGet env s hash).1 sp ∧
+    (∀ e, AL.get sp.m (keyOf hash) = some e → e.tainted = false → (blockGet env s hash).2 = .data e.raw e.trusted) := by
+  unfold blockGet
+  simp only
+  split
+  · rename_i hnone
+    refine ⟨h, ?_⟩
+    intro e he hte
+    obtain ⟨r, hr, _⟩ := h.ent _ e he hte
+    rw [hnone] at hr; cases hr
+  · rename_i r0 hr0
+    split
+    · rename_i c hc
+      constructor
+      · refine ref_cache env s _ sp h rfl rfl rfl rfl rfl rfl rfl rfl ?_ ?_
+        · intro k' c' hc'
+          simp only [AL.get_set] at hc'
+          split at hc'
+          · rename_i e; subst e
+            simp only [Option.some.injEq] at hc'
+            exact .inl ⟨c, hc, by rw [← hc']⟩
+          · exact .inl ⟨c', hc', rfl⟩
+        · intro k' c0 r hc0 _ _
+          simp only [AL.get_set]
+          split
+          · exact ⟨_, rfl⟩
+          · exact ⟨c0, hc0⟩
+      · intro e he hte
+        obtain ⟨r, hr, hr2, _⟩ := h.ent _ e he hte
+        rw [hr0] at hr; simp only [Option.some.injEq] at hr; subst hr
+        rw [h.cachedata _ c e hc he hte, hr2]
+    · rename_i hcn
+      split
+      · rename_i hin
+        refine ⟨h, ?_⟩
+        intro e he hte
+        obtain ⟨r, hr, _, _, _, hr5, _⟩ := h.ent _ e he hte
+        rw [hr0] at hr; simp only [Option.some.injEq] at hr; subst hr
+        obtain ⟨c, hc⟩ := hr5 (by simpa using hin)
+        rw [hcn] at hc; cases hc
+      · rename_i hin
+        have hsome : r0.ipos.isSome = true := by
+          cases hh : r0.ipos with
+          | none => simp [hh] at hin
+          | some p => rfl
+        split
+        · rename_i hb0
+          refine ⟨h, ?_⟩
+          intro e he hte
+          obtain ⟨r, hr, _, _, _, _, hr6⟩ := h.ent _ e he hte
+          rw [hr0] at hr; simp only [Option.some.injEq] at hr; subst hr
+          exact absurd hb0 (hr6 hsome).1
+        · split
+          · rename_i hnf
+            refine ⟨h, ?_⟩
+            intro e he hte
+            obtain ⟨r, hr, _, _, _, _, hr6⟩ := h.ent _ e he hte
+            rw [hr0] at hr; simp only [Option.some.injEq] at hr; subst hr
+            obtain ⟨_, file, d2, _, _⟩ := hr6 hsome
+            rw [d2] at hnf; simp at hnf
+          · rename_i file hfile
+            split
+            · rename_i hshort
+              refine ⟨h, ?_⟩
+              intro e he hte
+              obtain ⟨r, hr, _, _, _, _, hr6⟩ := h.ent _ e he hte
+              rw [hr0] at hr; simp only [Option.some.injEq] at hr; subst hr
+              obtain ⟨_, file', d2, d3, _⟩ := hr6 hsome
+              rw [d2] at hfile; simp at hfile; subst hfile
+              omega
+            · generalize hble : decodeStored env r0 (List.take r0.blen (List.drop r0.fpos file)) = ble
+              obtain ⟨bl, err⟩ := ble
+              simp only
+              have hbl : ∀ e, AL.get sp.m (keyOf hash) = some e → e.tainted = false → bl = e.raw ∧ err = none ∧ r0.trusted = e.trusted ∧ r0.olen ≠ 0 := by
+                intro e he hte
+                obtain ⟨r, hr, hr2, hr3, hr4, _, hr6⟩ := h.ent _ e he hte
+                rw [hr0] at hr; simp only [Option.some.injEq] at hr; subst hr
+                obtain ⟨_, file', d2, d3, d4⟩ := hr6 hsome
+                rw [d2] at hfile; simp at hfile; subst hfile
+                rw [hble] at d4
+                simp only [Prod.mk.injEq] at d4
+                exact ⟨d4.1, d4.2, hr2, by omega⟩
+              have h1 : Ref env { s with index := AL.set s.index (keyOf hash) (if r0.olen = 0 then ({ r0 with olen := bl.length } : Rec) else r0) } sp := by
+                obtain ⟨e0, he0⟩ := h.idxspec _ r0 hr0
+                refine ref_update env s _ sp sp h (keyOf hash) r0 (if r0.olen = 0 then ({ r0 with olen := bl.length } : Rec) else r0) hr0
+                  (fun k' => by simp only [AL.get_set]) rfl rfl rfl rfl rfl rfl rfl rfl
+                  (by split <;> rfl) (by split <;> rfl) (by split <;> rfl) (by split <;> rfl) (by split <;> rfl) (by split <;> rfl) (by split <;> rfl)
+                  rfl (fun _ _ => rfl) ?_ ⟨e0, he0⟩
+                intro e' he' hte
+                obtain ⟨_, _, h3, h4⟩ := hbl e' he' hte
+                exact ⟨e', he', hte, rfl, by rw [if_neg h4]; exact h3, by rw [if_neg h4]⟩
+              have h2 := addToCache_ref env _ sp h1 (keyOf hash) bl (by simp only [AL.get_set]; simp)
+                (fun e he hte => (hbl e he hte).1)
+              constructor
+              · split <;> exact h2
+              · intro e he hte
+                obtain ⟨b1, b2, b3, _⟩ := hbl e he hte
+                subst b2
+                simp only [b1, b3]
+
+theorem blockLength_ref (env : Env) (s : State) (sp : Spec) (h : Ref env s sp) (hash : Bytes) (d : Bool) :
+    Ref env (blockLength env s hash d).1 sp ∧
+    (∀ e, AL.get sp.m (keyOf hash) = some e → e.tainted = false → (blockLength env s hash d).2 = .len e.raw.length) := by
+  unfold blockLength
+  simp only
+  split
+  · rename_i hnone
+    refine ⟨h, ?_⟩
+    intro e he hte
+    obtain ⟨r, hr, _⟩ := h.ent _ e he hte
+    rw [hnone] at hr; cases hr
+  · rename_i r0 hr0
+    have holen : ∀ e, AL.get sp.m (keyOf hash) = some e → e.tainted = false → r0.olen = e.raw.length ∧ r0.olen ≠ 0 := by
+      intro e he hte
+      obtain ⟨r, hr, _, hr3, hr4, _⟩ := h.ent _ e he hte
+      rw [hr0] at hr; simp only [Option.some.injEq] at hr; subst hr
+      exact ⟨hr3, by omega⟩
+    split
+    · refine ⟨h, ?_⟩
+      intro e he hte
+      rw [(holen e he hte).1]
+    · rename_i hz
+      have hcontra : ∀ e, AL.get sp.m (keyOf hash) = some e → e.tainted = false → False := by
+        intro e he hte
+        exact hz (holen e he hte).2
+      split
+      · exact ⟨h, fun e he hte => (hcontra e he hte).elim⟩
+      · have := (blockGet_ref env s sp h hash).1
+        generalize blockGet env s hash = res at this ⊢
+        obtain ⟨s', out⟩ := res
+        cases out <;> exact ⟨this, fun e he hte => (hcontra e he hte).elim⟩
+
+/-! ### one operation, a whole session -/
+
+theorem step_ref (env : Env) (ok : EnvOK env) (s : State) (sp : Spec) (h : Ref env s sp) (op : Op)
+    (hno : op.isReopen = false) (hsz : op.sizeOK) :
+    Ref env (step env s op).1 (specStep sp op) ∧ (claim sp op).holds (step env s op).2 := by
+  have hopn := h.opn
+  cases op with
+  | reopen o => simp [Op.isReopen] at hno
+  | add hash ht tx tr raw =>
+    unfold step specStep claim
+    simp only
+    by_cases ho : s.isOpen = true
+    · simp only [ho, hopn, Bool.not_true, Bool.false_eq_true, ↓reduceIte]
+      by_cases hl : raw.length < 80
+      · simp only [hl, ↓reduceIte]; exact ⟨h, trivial⟩
+      · simp only [hl, ↓reduceIte]
+        refine ⟨?_, trivial⟩
+        cases hsp : AL.get sp.m (keyOf hash) with
+        | none =>
+          simp only
+          refine blockAdd_ref env ok s sp _ h hash ht tx tr raw ⟨by omega, hsz⟩ (hopn.trans ho).symm
+            (fun k' hne => by simp only [AL.get_set, if_neg hne]) ?_ ?_ ⟨_, by rw [AL.get_set, if_pos rfl]⟩
+          · intro _ e' he'
+            simp only [AL.get_set, ↓reduceIte, Option.some.injEq] at he'
+            subst he'; exact ⟨rfl, rfl⟩
+          · intro e he; rw [hsp] at he; cases he
+        | some e0 =>
+          simp only
+          refine blockAdd_ref env ok s sp _ h hash ht tx tr raw ⟨by omega, hsz⟩ (hopn.trans ho).symm
+            (fun k' hne => by simp only [AL.get_set, if_neg hne]) ?_ ?_ ⟨_, by rw [AL.get_set, if_pos rfl]⟩
+          · intro hn; rw [hsp] at hn; cases hn
+          · intro e he e' he'
+            rw [hsp] at he; simp only [Option.some.injEq] at he; subst he
+            simp only [AL.get_set, ↓reduceIte, Option.some.injEq] at he'
+            subst he'; exact ⟨rfl, rfl, rfl⟩
+    · simp only [ho, hopn, Bool.not_false, ↓reduceIte]; exact ⟨h, trivial⟩
+  | get hash =>
+    unfold step specStep claim
+    simp only
+    by_cases ho : s.isOpen = true
+    · simp only [ho, hopn, Bool.not_true, Bool.false_eq_true, ↓reduceIte]
+      obtain ⟨g1, g2⟩ := blockGet_ref env s sp h hash
+      refine ⟨g1, ?_⟩
+      cases hsp : AL.get sp.m (keyOf hash) with
+      | none => trivial
+      | some e =>
+        simp only
+        cases hte : e.tainted with
+        | true => trivial
+        | false => exact g2 e hsp hte
+    · simp only [ho, hopn, Bool.not_false, ↓reduceIte]; exact ⟨h, trivial⟩
+  | length hash d =>
+    unfold step specStep claim
+    simp only
+    by_cases ho : s.isOpen = true
+    · simp only [ho, hopn, Bool.not_true, Bool.false_eq_true, ↓reduceIte]
+      obtain ⟨g1, g2⟩ := blockLength_ref env s sp h hash d
+      refine ⟨g1, ?_⟩
+      cases hsp : AL.get sp.m (keyOf hash) with
+      | none => trivial
+      | some e =>
+        simp only
+        cases hte : e.tainted with
+        | true => trivial
+        | false => exact g2 e hsp hte
+    · simp only [ho, hopn, Bool.not_false, ↓reduceIte]; exact ⟨h, trivial⟩
+  | trusted hash =>
+    unfold step specStep claim
+    simp only
+    by_cases ho : s.isOpen = true
+    · simp only [ho, hopn, Bool.not_true, Bool.false_eq_true, ↓reduceIte]
+      refine ⟨?_, trivial⟩
+      cases hsp : AL.get sp.m (keyOf hash) with
+      | none =>
+        simp only
+        refine blockTrusted_ref env s sp sp h hash rfl (fun _ _ => rfl) ?_ (fun e he => ⟨e, he⟩)
+        intro e' he'; rw [hsp] at he'; cases he'
+      | some e0 =>
+        simp only
+        refine blockTrusted_ref env s sp _ h hash (hopn.trans ho).symm (fun k' hne => by simp only [AL.get_set, if_neg hne]) ?_
+          (fun _ _ => ⟨_, by rw [AL.get_set, if_pos rfl]⟩)
+        intro e' he'
+        simp only [AL.get_set, ↓reduceIte, Option.some.injEq] at he'
+        subst he'; exact ⟨e0, hsp, rfl, rfl, rfl⟩
+    · simp only [ho, hopn, Bool.not_false, ↓reduceIte]; exact ⟨h, trivial⟩
+  | invalid hash =>
+    unfold step specStep claim
+    simp only
+    by_cases ho : s.isOpen = true
+    · simp only [ho, hopn, Bool.not_true, Bool.false_eq_true, ↓reduceIte]
+      refine ⟨?_, trivial⟩
+      cases hsp : AL.get sp.m (keyOf hash) with
+      | none =>
+        simp only
+        refine blockInvalid_ref env s sp sp h hash rfl (fun _ _ => rfl) ?_ (fun e he => ⟨e, he⟩)
+        intro e' he'; rw [hsp] at he'; cases he'
+      | some e0 =>
+        simp only
+        refine blockInvalid_ref env s sp _ h hash (hopn.trans ho).symm (fun k' hne => by simp only [AL.get_set, if_neg hne]) ?_
+          (fun _ _ => ⟨_, by rw [AL.get_set, if_pos rfl]⟩)
+        intro e' he'
+        simp only [AL.get_set, ↓reduceIte, Option.some.injEq] at he'
+        subst he'; rfl
+    · simp only [ho, hopn, Bool.not_false, ↓reduceIte]; exact ⟨h, trivial⟩
+  | idle =>
+    unfold step specStep claim
+    simp only
+    by_cases ho : s.isOpen = true
+    · simp only [ho, hopn, Bool.not_true, Bool.false_eq_true, ↓reduceIte]
+      exact ⟨flush_ref env ok s sp h, trivial⟩
+    · simp only [ho, hopn, Bool.not_false, ↓reduceIte]; exact ⟨h, trivial⟩
+  | close =>
+    unfold step specStep claim
+    simp only
+    by_cases ho : s.isOpen = true
+    · simp only [ho, hopn, Bool.not_true, Bool.false_eq_true, ↓reduceIte]
+      have f := flush_ref env ok s sp h
+      exact ⟨⟨rfl, f.keep, f.idxspec, f.pos, f.cacheidx, f.cachedata, f.qseq, f.qdata, f.ent⟩, trivial⟩
+    · simp only [ho, hopn, Bool.not_false, ↓reduceIte]; exact ⟨h, trivial⟩
+
+theorem run_ref (env : Env) (ok : EnvOK env) : ∀ (ops : List Op) (s : State) (sp : Spec), Ref env s sp →
+    (∀ op ∈ ops, op.isReopen = false ∧ op.sizeOK) →
+    AllHold (specRun sp ops) (run env s ops).2 := by
+  intro ops
+  induction ops with
+  | nil => intro s sp _ _; exact trivial
+  | cons op ops ih =>
+    intro s sp h hno
+    obtain ⟨h1, h2⟩ := step_ref env ok s sp h op (hno op (by simp)).1 (hno op (by simp)).2
+    unfold run specRun
+    exact ⟨h2, ih _ _ h1 (fun op' hop' => hno op' (by simp [hop']))⟩
+
+/-- a fresh store: `NewBlockDBExt` + `LoadBlockIndex` on an empty directory -/
+theorem reopen_fresh_ref (env : Env) (o : Opts) (hk : o.keep = 0) :
+    Ref env (reopen env {} o).1 { isOpen := true, m := [] } := by
+  have e : (reopen env {} o).1.index = [] ∧ (reopen env {} o).1.cache = [] ∧ (reopen env {} o).1.queue = []
+      ∧ (reopen env {} o).1.isOpen = true ∧ (reopen env {} o).1.opts.keep = 0 := by
+    unfold reopen
+    simp [loadLoop, hk]
+    split <;> simp [hk]
+  obtain ⟨e1, e2, e3, e4, e5⟩ := e
+  refine ⟨e4.symm, e5, ?_, ?_, ?_, ?_, ?_, ?_, ?_⟩
+  · intro k r hr; rw [e1] at hr; simp [AL.get] at hr
+  · intro k r hr; rw [e1] at hr; simp [AL.get] at hr
+  · intro k c hc; rw [e2] at hc; simp [AL.get] at hc
+  · intro k c e hc; rw [e2] at hc; simp [AL.get] at hc
+  · intro b hb; rw [e3] at hb; simp at hb
+  · intro b hb; rw [e3] at hb; simp at hb
+  · intro k e he; simp [AL.get] at he
+
 end GocoinV.BlockDB
